@@ -30,10 +30,27 @@ pub fn gen(seed: u64, thorough: bool) {
             if i % 3 == 0 { (Box::new(|| Engine::load(&[BUNDLED_VOICE]).expect("bundled voice")), "bundled") } else { src.any_engine_factory(&mut rng) };
         let mut e = factory();
         random_condition(&mut rng, &mut e, true);
-        e.condition.set_phoneme_alignment_flag(false);
+        // every fourth schedule runs with phoneme alignment on, the utterances carrying no time stamps, stamps on all lines but
+        // the last ones, or on the first line only — the paths that fall back to model durations (seeded change C03h: a
+        // process-wide "notice printed once" latch that also guarded the fallback, so only the first call in the process was right)
+        let aligned = i % 4 == 1;
+        e.condition.set_phoneme_alignment_flag(aligned);
         let k = *rng.pick(&[2usize, 4, 8, 16]);
         // utterances of different lengths and from different sentences (the voice's GV trees look at utterance-level fields)
-        let utterances: Vec<Vec<String>> = (0..3).map(|j| { let n = if j == 1 { rng.range(4, 9) } else { rng.range(1, 3) }; let rc = rng.chance(0.5); src.labels(&mut rng, n, rc) }).collect();
+        let mut utterances: Vec<Vec<String>> = (0..3).map(|j| { let n = if j == 1 { rng.range(4, 9) } else { rng.range(1, 3) }; let rc = rng.chance(0.5); src.labels(&mut rng, n, rc) }).collect();
+        if aligned {
+            let per = e.condition.get_fperiod() as f64 * 1e7 / e.condition.get_sampling_frequency() as f64;
+            for (j, u) in utterances.iter_mut().enumerate() {
+                let n = u.len();
+                let mut t = 0.0f64;
+                for (l, line) in u.iter_mut().enumerate() {
+                    let len = rng.uniform(5.0, 30.0);
+                    let stamp = match j { 0 => false, 1 => l + 2 < n, _ => l == 0 && n > 1 };
+                    if stamp { *line = format!("{} {} {}", (t * per).round() as u64, ((t + len) * per).round() as u64, line); }
+                    t += len;
+                }
+            }
+        }
         let before = getters(&e);
         // reference: every utterance on its own freshly loaded engine (same condition) that has never synthesized
         // anything else — a result that depends on what an engine did before cannot equal it
